@@ -1,6 +1,7 @@
 import Hive.Proofs.Deser
 import Hive.Proofs.JsonDec
 import Hive.Proofs.StreamCost
+import Hive.Gen.C02_Skel
 /-!
 # C02 — decoders are total and resource-bounded on arbitrary input
 
@@ -253,6 +254,79 @@ example :
     JsonDec.dec ⟨true, true⟩ t (.obj [(JsonDec.keyType, .num 5), ([98], .bool true), ([110], .arr [.num 1])]) = .ok ∧
     JsonDec.dec ⟨true, true⟩ t (.obj [(JsonDec.keyType, .num 5), ([98], .str [120])]) = .err ∧
     JsonDec.dec ⟨true, true⟩ t (.obj [(JsonDec.keyType, .num 5), ([98], .bool true), ([110], .obj [])]) = .err := by
+  decide
+
+/-! ## shared state of a `serix.API`: the kind of lock of every accessor
+
+A `serix.API` is meant to be shared: every Decode/Encode reads the struct-field cache and the registries,
+and the first Decode/Encode of a struct type fills the cache.  `Hive/Gen/C02_Skel.lean` is regenerated from
+the Go source on every run (harness/tools/extract-sync); the obligations below pin, per accessor, which
+mutex it takes and of which kind — readers `rlock`, everything that writes the map `lock` — so that a
+change of the synchronisation structure breaks a proof obligation.  (A write under a read lock is not a
+recoverable panic but a runtime abort of the whole process; the concurrent part of harness/c02 looks for it
+on the real code.) -/
+open Hive.Gen.C02Skel
+
+/-- the lock operations of a skeleton, in order -/
+def lockOps (s : List String) : List String :=
+  s.filter fun t => [
+    "lock c.cacheMutex", "rlock c.cacheMutex", "unlock c.cacheMutex", "runlock c.cacheMutex",
+    "defer unlock c.cacheMutex", "defer runlock c.cacheMutex",
+    "lock r.registryMutex", "rlock r.registryMutex", "unlock r.registryMutex", "runlock r.registryMutex",
+    "defer unlock r.registryMutex", "defer runlock r.registryMutex"].contains t
+
+theorem C02_skeleton_structFieldsCache_Get : skel_structFieldsCache_Get =
+    ["rlock c.cacheMutex", "defer runlock c.cacheMutex", "return"] := by decide
+
+/-- the cache map is written under the WRITE lock -/
+theorem C02_skeleton_structFieldsCache_Set : skel_structFieldsCache_Set =
+    ["lock c.cacheMutex", "defer unlock c.cacheMutex"] := by decide
+
+theorem C02_skeleton_API_getStructFields : skel_API_getStructFields =
+    ["call api.structFieldsCache.Get", "if{", "return", "}if", "if{", "return", "}if",
+     "call api.structFieldsCache.Set", "return"] := by decide
+
+theorem C02_skeleton_TypeSettingsRegistry_Has : skel_TypeSettingsRegistry_Has =
+    ["rlock r.registryMutex", "defer runlock r.registryMutex", "call r.registry.Has", "return"] := by decide
+
+theorem C02_skeleton_TypeSettingsRegistry_ForEach : skel_TypeSettingsRegistry_ForEach =
+    ["rlock r.registryMutex", "defer runlock r.registryMutex", "func{", "return", "}func", "call r.registry.ForEach"] := by
+  decide
+
+theorem C02_skeleton_TypeSettingsRegistry_GetByType : lockOps skel_TypeSettingsRegistry_GetByType =
+    ["rlock r.registryMutex", "defer runlock r.registryMutex"] := by decide
+
+theorem C02_skeleton_TypeSettingsRegistry_GetByValue : lockOps skel_TypeSettingsRegistry_GetByValue =
+    ["rlock r.registryMutex", "defer runlock r.registryMutex"] := by decide
+
+/-- registration writes the registry under the WRITE lock, taken before the first registry access -/
+theorem C02_skeleton_TypeSettingsRegistry_RegisterTypeSettings :
+    lockOps skel_TypeSettingsRegistry_RegisterTypeSettings = ["lock r.registryMutex", "defer unlock r.registryMutex"] ∧
+    skel_TypeSettingsRegistry_RegisterTypeSettings.dropWhile (· != "lock r.registryMutex")
+      = ["lock r.registryMutex", "defer unlock r.registryMutex", "call r.registry.Has", "if{", "return", "}if",
+         "call r.registry.Set", "return"] := by decide
+
+theorem C02_skeleton_InterfacesRegistry_Get : skel_InterfacesRegistry_Get =
+    ["rlock r.registryMutex", "defer runlock r.registryMutex", "call r.registry.Get", "return"] := by decide
+
+theorem C02_skeleton_InterfacesRegistry_Has : skel_InterfacesRegistry_Has = ["call r.Get", "return"] := by decide
+
+theorem C02_skeleton_InterfacesRegistry_ForEach : skel_InterfacesRegistry_ForEach =
+    ["rlock r.registryMutex", "defer runlock r.registryMutex", "func{", "return", "}func", "call r.registry.ForEach"] := by
+  decide
+
+theorem C02_skeleton_InterfacesRegistry_RegisterInterfaceObjects :
+    lockOps skel_InterfacesRegistry_RegisterInterfaceObjects = ["lock r.registryMutex", "defer unlock r.registryMutex"] ∧
+    (skel_InterfacesRegistry_RegisterInterfaceObjects.takeWhile (· != "lock r.registryMutex")).all
+      (fun t => !(t.startsWith "call r.registry")) = true := by decide
+
+theorem C02_skeleton_validatorsRegistry_Get : skel_validatorsRegistry_Get =
+    ["rlock r.registryMutex", "defer runlock r.registryMutex", "return"] := by decide
+
+theorem C02_skeleton_validatorsRegistry_Has : skel_validatorsRegistry_Has = ["call r.Get", "return"] := by decide
+
+theorem C02_skeleton_validatorsRegistry_RegisterValidator :
+    lockOps skel_validatorsRegistry_RegisterValidator = ["lock r.registryMutex", "defer unlock r.registryMutex"] := by
   decide
 
 /-! ## the property, as far as these decoders go -/
